@@ -45,6 +45,12 @@ CHECKS = {
         note="Formatting, comments, unused imports and return annotations are ignored as the property allows; the generators themselves are trusted to be the 'documented generation step' (Taskfile.yml without the ruff pass).",
         ref="DESIGN.md §4 C16",
     ),
+    "C17": dict(
+        technique="model-based differential testing of the parser generator: Hypothesis-drawn well-formed grammars are compiled through the shipped metagrammar parser and the xonsh generator, executed, and compared on ALL token strings up to a length bound with an independent reference PEG interpreter",
+        text="Exploration with exhaustive inputs per grammar: for each generated grammar every token string up to the bound is run through the generated parser and the reference interpreter (success/failure/forced error, end position, value). Held on everything generated after four generator fixes.",
+        note="The reference interpreter (ordered choice, greedy repetition, cut, forced, keyword exclusion, seed-growing left recursion at pegen's documented SCC leader) is mine; values are compared modulo falsy-equivalence; grammars pegen rejects (GrammarError, no leadership candidate) are discarded and counted.",
+        ref="DESIGN.md §4 C17",
+    ),
     "C18": dict(
         technique="property-based testing over size-parameterised input families with deterministic work counters (token reads/peeks/resets of a counting Tokenizer subclass): fixed families from the grammar's recursion structure + Hypothesis-drawn wrapper mixtures, valid and invalid; linear bound and doubling-ratio oracle",
         text="Exploration: each family is instantiated at doubling sizes and must satisfy work <= 3000*tokens+20000 and work(2n)/work(n) <= 2.6; no wall-clock is involved so verdicts are reproducible. Decides linearity only for the families generated. Held except the listed finding D42 (quadratic on rejected nested subprocesses).",
